@@ -13,7 +13,7 @@ def nontrivial(c, tr):
 
 def run(chk, replay=None):
     return connlib.run_property(
-        chk, "C13", connlib.oracle_c13, ["marks", "marks", "stream", "mixed"], 1500, 60000, replay=replay,
+        chk, "C13", connlib.oracle_c13, ["marks", "marks", "stream", "mixed"], 1000, 24000, replay=replay,
         nontrivial=nontrivial,
         rule="corpus + random send/writability sequences with sizes aimed at the high-water mark (mark-1, mark, mark+1 relative to the backlog) and "
              "acceptance patterns whole/partial/none; non-trivial = at least one write-complete or high-water callback ran; distinct by (op kinds, #WC, #HWM, configuration)")
